@@ -174,6 +174,57 @@ func c05(c *Ctx) {
 						})
 					}
 				}
+				// ---- response direction under other request content types: the JSON a client is
+				// sent must not depend on how the request's Content-Type was spelled ----
+				if ctx == "top" && (rv.Class == "full0" || rv.Class == "full1") {
+					for _, alt := range altRequestCTs {
+						caseID := fmt.Sprintf("%s/ctx=%s/dir=resp/ct=%s@%s", base, ctx, alt.Label, vclass)
+						if !c.Want(caseID) {
+							continue
+						}
+						gs.Script(rpc, map[string]any{"resp": b64(wire(M))})
+						emptyTree, _ := enc.Message(dynamicpb.NewMessage(ctxMD))
+						var hdr [][2]string
+						if alt.CT != "" {
+							hdr = [][2]string{{"Content-Type", alt.CT}}
+						}
+						resp, err := rawHTTP("POST", gs.URL, u.FP.Path[ctx], hdr, jsonmap.Marshal(emptyTree))
+						c.R.Eval(1)
+						evs, _ := syncEvents(ch)
+						if err != nil {
+							transportFailure(c, nil, evs, caseID, err, map[string]any{"proto": protoText, "rpc": rpc, "request_content_type": alt.CT})
+							continue
+						}
+						rp := map[string]any{"proto": protoText, "rpc": rpc, "request_content_type": alt.CT, "handler_returned": fmt.Sprint(M), "status": resp.Status, "response_content_type": resp.Header.Get("Content-Type"), "server_json": string(resp.Body), "model_json": string(jsonmap.Marshal(wantTree))}
+						if resp.Status != 200 {
+							// whether such a request is accepted at all is C11's matter; nothing to compare
+							c.R.Decided(caseID)
+							continue
+						}
+						if rct := resp.Header.Get("Content-Type"); !strings.HasPrefix(rct, "application/json") {
+							c.R.Decided(caseID) // answered in another format: not a JSON mapping question
+							continue
+						}
+						if got, perr := jsonmap.Parse(resp.Body); perr != nil {
+							c.R.Violate(caseID, "invalid-json", perr.Error(), rp)
+						} else {
+							seen := map[string]bool{}
+							for _, d := range jsonmap.Diff(wantTree, got) {
+								if seen[d.Symptom] {
+									continue
+								}
+								seen[d.Symptom] = true
+								rp2 := map[string]any{}
+								for k, v := range rp {
+									rp2[k] = v
+								}
+								rp2["at"], rp2["model"], rp2["server"] = d.Path, d.Want, d.Got
+								c.R.Violate(caseID, d.Symptom, "role:"+jsonmap.RolePath(ctxMD, d.Path), rp2)
+							}
+						}
+						c.R.Decided(caseID)
+					}
+				}
 				// ---- request direction ----
 				caseID = fmt.Sprintf("%s/ctx=%s/dir=req@%s", base, ctx, vclass)
 				if c.Want(caseID) {
@@ -226,6 +277,13 @@ func c05(c *Ctx) {
 
 func depthOf(ptr string) string {
 	return fmt.Sprintf("depth-%s", []string{"zero", "one", "two", "three", "four", "five+"}[min(strings.Count(ptr, "/"), 5)])
+}
+
+// altRequestCTs: request content types other than the canonical application/json under which a
+// server still answers in JSON.
+var altRequestCTs = []struct{ Label, CT string }{
+	{"absent", ""}, {"json-charset", "application/json; charset=utf-8"}, {"json-upper", "Application/JSON"},
+	{"text-plain", "text/plain;charset=UTF-8"}, {"form", "application/x-www-form-urlencoded"}, {"vendor-json", "application/vnd.api+json"},
 }
 
 // rejectReason extracts the decoder's reason from a 400 body (first violation description).
